@@ -393,7 +393,7 @@ func TestVerifC16Table(t *testing.T) {
 func TestVerifC16Token(t *testing.T) {
 	const check = "C16.token"
 	res := verifrt.NewResult(check)
-	res.Rule = "2-6 virtual threads call acquireUploadToken on one directory under the token-passing scheduler (scheduling point at its Stat/Remove/OpenFile), token initially absent or fresh (stale-token races are excluded by the property), strategies park-at-k / PCT / random; then 2-24 real processes started together with Upload set. Oracle: at most one caller acquires (true returns / sidecars with the upload flag). distinct = distinct traces"
+	res.Rule = "2-6 virtual threads call acquireUploadToken on one directory under the token-passing scheduler (scheduling point at its Stat/Remove/OpenFile), token initially absent or fresh (stale-token races are excluded by the property), in every other case with an injected failure (ENOSPC, EACCES, EMFILE, EROFS, EIO, ENOENT, EDQUOT) of one or all of the token file's Stat/Remove/OpenFile calls, strategies park-at-k / PCT / random; then 2-24 real processes started together with Upload set. Oracle: at most one caller acquires (true returns / sidecars with the upload flag) and only a caller whose exclusive create succeeded (from the system-call event log). distinct = distinct traces"
 	base, _ := os.MkdirTemp(os.Getenv("VERIF_TMP"), "c16t-")
 	defer os.RemoveAll(base)
 	n := verifrt.Scale(600, 30000)
@@ -413,6 +413,24 @@ func TestVerifC16Token(t *testing.T) {
 		}
 		nt := 2 + rnd.Intn(5)
 		got := make([]bool, nt)
+		// every other case one or all token-file system calls fail: a starter
+		// that could not create the token file holds no token
+		plan := &verifrt.Plan{}
+		faulty := i%2 == 1
+		if faulty {
+			op := verifrt.Pick(rnd, []string{"OpenFile", "OpenFile", "OpenFile", "Stat", "Remove"})
+			nth := rnd.Intn(nt)
+			if rnd.Intn(3) == 0 {
+				nth = -1
+			}
+			plan.Faults = []*verifrt.Fault{{Op: op, PathSub: "upload.token", Nth: nth,
+				Errno: verifrt.Pick(rnd, []syscall.Errno{syscall.ENOSPC, syscall.EACCES, syscall.EMFILE, syscall.EROFS, syscall.EIO, syscall.ENOENT, syscall.EDQUOT})}}
+			res.Hit("fault:" + op)
+			if nt == 1+nth || nth < 0 {
+				res.Hit("fault-on-every-or-last-starter")
+			}
+		}
+		verifrt.SetPlan(plan)
 		sc := verifrt.NewSched(rnd)
 		for k := 0; k < nt; k++ {
 			k := k
@@ -436,6 +454,7 @@ func TestVerifC16Token(t *testing.T) {
 			sc.Choose = verifrt.ChooseRandom
 		}
 		sc.Run(20 * time.Second)
+		verifrt.SetPlan(nil)
 		res.Eval()
 		res.Distinct(string(sc.Trace))
 		if sc.Stuck != "" || sc.Overrun {
@@ -455,6 +474,19 @@ func TestVerifC16Token(t *testing.T) {
 		max := 1
 		if fresh {
 			max = 0
+		}
+		// a token is held only through a token file this caller created
+		created := map[string]bool{}
+		for _, ev := range plan.Snapshot() {
+			if ev.Op == "OpenFile" && ev.Err == "" && strings.Contains(ev.Path, "upload.token") {
+				created[ev.Actor] = true
+			}
+		}
+		for k, g := range got {
+			if g && !created[fmt.Sprintf("S%d", k)] {
+				res.Violate("token-without-token-file", fmt.Sprintf("starter S%d reports the upload token as acquired although it did not create the token file (faults: %+v)", k, plan.Faults), verifrt.CaseReplay(i, map[string]any{"trace": fmt.Sprint(sc.Trace), "events": plan.Snapshot()}))
+				break
+			}
 		}
 		if wins > max {
 			res.Violate("token-acquired-twice", fmt.Sprintf("%d of %d concurrent starters acquired the upload token (token initially fresh=%v)", wins, nt, fresh), verifrt.CaseReplay(i, map[string]any{"trace": fmt.Sprint(sc.Trace)}))
@@ -522,7 +554,7 @@ func TestVerifC16Token(t *testing.T) {
 		}
 		os.RemoveAll(work)
 	}
-	res.Require("strategy:park", "strategy:pct", "one-winner", "real-race-round")
+	res.Require("strategy:park", "strategy:pct", "one-winner", "real-race-round", "fault:OpenFile", "fault:Stat", "fault-on-every-or-last-starter")
 	if err := res.Write(); err != nil {
 		t.Fatal(err)
 	}
